@@ -58,6 +58,12 @@ FRESH = [
     ("stale-x-scope", HCLS + "function mk() -> qubit { H o = new H(); return o.get(); }\nfunction main() -> void { qubit keep; qubit al = mk(); x(al); H p = new H(); bit z = measure p.q; echo(z); }"),
     ("stale-cx", HCLS + "function main() -> void { qubit keep; h(keep); H o = new H(); qubit al = o.get(); o = null; cx(keep, al); H p = new H(); bit z = measure p.q; echo(z); bit k = measure keep; echo(k); }"),
     ("stale-h", HCLS + "function main() -> void { H o = new H(); qubit al = o.q; destroy o; h(al); H p = new H(); H p2 = new H(); bit z = measure p.q; echo(z); }"),
+    # (seed C04-3, and C04-1/C05-1 revisited) the stale handle acts on the released qubit and then goes out of scope: only now is the
+    # index free again, and what the handle left behind (|1>, half of a Bell pair with a live qubit) must not reach the next declaration
+    ("stale-x-out-of-scope", HCLS + "function main() -> void { qubit keep; H o = new H(); { qubit al = o.q; destroy o; x(al); } H p = new H(); bit z = measure p.q; echo(z); }"),
+    ("stale-cx-out-of-scope", HCLS + "function main() -> void { qubit keep; h(keep); H o = new H(); { qubit al = o.get(); o = null; cx(keep, al); } H p = new H(); bit z = measure p.q; echo(z); bit k = measure keep; echo(k); }"),
+    ("stale-h-out-of-scope", HCLS + "function poke() -> void { H o = new H(); qubit al = o.q; destroy o; h(al); }\nfunction main() -> void { qubit keep; poke(); H p = new H(); bit z = measure p.q; echo(z); }"),
+    ("stale-x-out-of-scope-local-fresh", HCLS + "function poke() -> void { H o = new H(); qubit al = o.q; o = null; x(al); }\nfunction main() -> void { qubit keep; poke(); poke(); H p = new H(); H p2 = new H(); bit z = measure p2.q; echo(z); bit z1 = measure p.q; echo(z1); }"),
     ("plain-reuse", HCLS + "function main() -> void { qubit keep; H o = new H(); x(o.q); h(keep); cx(keep, o.q); destroy o; H p = new H(); bit z = measure p.q; echo(z); }"),
 ]
 
@@ -163,7 +169,7 @@ def _one(item):
 
 def main(tier):
     ck = vcheck.Check("C04", "model_checking", tier)
-    runs = ([["bfs", "full", 3, 10], ["bfs", "full", 4, 9]] + simlevel.HISTORY_RUNS_THOROUGH) if tier == "thorough" else ([["bfs", "full", 3, 8]] + simlevel.HISTORY_RUNS_QUICK)
+    runs = ([["bfs", "full", 3, 10], ["bfs", "full", 4, 9]] + simlevel.HISTORY_RUNS_THOROUGH + simlevel.COMPLEX_RUNS_THOROUGH) if tier == "thorough" else ([["bfs", "full", 3, 8]] + simlevel.HISTORY_RUNS_QUICK + simlevel.COMPLEX_RUNS_QUICK)
     res = simlevel.run_all(runs)
     simlevel.report(ck, res, {"C04"})
     for d in res:
